@@ -343,6 +343,8 @@ def _ival(mp, a, b, form='mpf'):
     def e(x):
         if isinstance(x, str):
             return mp.inf if x == '+inf' else mp.ninf
+        if form == 'float':
+            return float(int(x))
         return int(x) if form == 'int' else mp.mpf(int(x))
     return [e(a), e(b)]
 
@@ -1039,8 +1041,8 @@ def gen_nsum_cell(r, cls, method, p):
         desc['method'] = method
     if method in ('levin', 'l', 'sidi'):
         desc['kw'] = {'levin_variant': r.choice(LEVIN_VARIANTS.get(sd['cls'], ['u']) + ['u'])}
-    if r.random() < 0.2:
-        desc['form'] = 'int'
+    if r.random() < 0.3:
+        desc['form'] = r.choice(['int', 'float'])       # operand type of the range limits
     return desc
 
 
